@@ -107,18 +107,23 @@ Definition rp (p : path) : path := match realpath F p with Ok q => q | Err _ => 
 Definition is_file_node (o : option fnode) : bool := match o with Some (File _) => true | _ => false end.
 Definition is_link_at (p : path) : bool := negb (nolink (node_at root p)).   (* Path.is_symlink() on an enumerated path *)
 
-(* CodeBase.__contains__ with no exclude patterns; dirs = the resolved directories *)
+(* CodeBase.__contains__ with no exclude patterns; dirs = the resolved directories.
+   (Path.resolve raises on a symlink loop: not a member) *)
 Definition contains (dirs : list path) (p : path) : bool :=
-  let r := rp p in
-  is_file_node (node_at root r) && is_src (last r "") && existsb (fun d => is_prefix d r) dirs.
+  match realpath F p with
+  | Ok r => is_file_node (node_at root r) && is_src (last r "") && existsb (fun d => is_prefix d r) dirs
+  | Err _ => false
+  end.
 
 (* CodeBase.__iter__ *)
 Definition iter (dirs : list path) : list path :=
   flat_map (fun d => filter (contains dirs) (rglob d)) dirs.
 
-(* the files get_setmap / FileTree.insert / find_duplicates count: links whose target is a member are skipped *)
+(* get_setmap: "if path.is_symlink() and path.resolve() in codebase: continue" *)
+Definition skipped (dirs : list path) (fn : path) : bool :=
+  is_link_at fn && match realpath F fn with Ok r => contains dirs r | Err _ => false end.
 Definition counted (dirs : list path) : list path :=
-  filter (fun fn => negb (is_link_at fn && contains dirs (rp fn))) (iter dirs).
+  filter (fun fn => negb (skipped dirs fn)) (iter dirs).
 
 End FS.
 
